@@ -186,7 +186,10 @@ def run(ctx: Ctx) -> int:
         geoms = []
     for g in geoms:
         c = gen_case(rng)
-        cases.append((g[0], g[1], c[2], gen_case_for(rng, g[0], g[1])))
+        ops_g = gen_case_for(rng, g[0], g[1])
+        if c[2]:      # I2C wiring: brightness() is parallel-only (as in gen_case)
+            ops_g = [o for o in ops_g if o[0] != "bri"] or [("clr",)]
+        cases.append((g[0], g[1], c[2], ops_g))
     for _ in range(ctx.n(70, 400)):
         cases.append(gen_case(rng))
     # pinned: message() on a one-row display (firmware writes row 1 unconditionally)
